@@ -198,7 +198,10 @@ fn vehicle(v: &Veh) -> Arc<dyn VehicleType> {
     }
 }
 fn query_json(q: &Query) -> Value {
-    let mut m = json!({"model_name": "veh"});
+    query_json_for(q, "veh")
+}
+fn query_json_for(q: &Query, model_name: &str) -> Value {
+    let mut m = json!({"model_name": model_name});
     match q {
         Query::Missing => {}
         Query::Null => m["starting_soc_percent"] = Value::Null,
@@ -260,7 +263,17 @@ fn state_vec(st: &[routee_compass_core::model::traversal::state::state_variable:
     st.iter().map(|v| v.0).collect()
 }
 
-fn run_impl(c: &Case, dir: &Path, id: usize) -> Outcome {
+fn fail(e: String) -> Outcome {
+    Outcome { start: Err(e.clone()), edges: vec![], est: Err(e.clone()), bc: Err(e) }
+}
+
+/// EnergyModelService over a speed-table time model, tables read from files, the given vehicle library
+fn make_service(
+    c: &Case,
+    library: HashMap<String, Arc<dyn VehicleType>>,
+    dir: &Path,
+    id: usize,
+) -> Result<EnergyModelService, String> {
     let sp = dir.join(format!("speeds_{}.txt", id));
     let gp = dir.join(format!("grades_{}.txt", id));
     write_table(&sp, &c.speeds);
@@ -268,39 +281,18 @@ fn run_impl(c: &Case, dir: &Path, id: usize) -> Outcome {
         write_table(&gp, g);
         gp.clone()
     });
-    let fail = |e: String| Outcome { start: Err(e.clone()), edges: vec![], est: Err(e.clone()), bc: Err(e) };
-    let engine = match SpeedTraversalEngine::new(&sp, c.en_su, Some(c.en_du), Some(c.en_tu)) {
-        Ok(e) => Arc::new(e),
-        Err(e) => return fail(class_err(&e)),
-    };
-    let time_service = SpeedLookupService { e: engine };
-    let mut library: HashMap<String, Arc<dyn VehicleType>> = HashMap::new();
-    library.insert("veh".to_string(), vehicle(&c.veh));
-    let service = match EnergyModelService::new(
-        Arc::new(time_service),
-        c.sv_su,
-        &grade_path,
-        c.sv_gu,
-        None,
-        Some(c.sv_du),
-        library,
-    ) {
-        Ok(s) => s,
-        Err(e) => return fail(class_err(&e)),
-    };
+    let engine = SpeedTraversalEngine::new(&sp, c.en_su, Some(c.en_du), Some(c.en_tu)).map_err(|e| class_err(&e))?;
+    let time_service = SpeedLookupService { e: Arc::new(engine) };
+    let service =
+        EnergyModelService::new(Arc::new(time_service), c.sv_su, &grade_path, c.sv_gu, None, Some(c.sv_du), library)
+            .map_err(|e| class_err(&e))?;
     let _ = std::fs::remove_file(&sp);
     let _ = std::fs::remove_file(&gp);
-    let q = query_json(&c.query);
-    // the service's own entry point (what the search calls per query) ...
-    let model: Arc<dyn TraversalModel> = match service.build(&q) {
-        Ok(m) => m,
-        Err(e) => return fail(class_err(&e)),
-    };
-    // ... and the same constructor once more for access to the updated vehicle (shares the records)
-    let concrete = match EnergyTraversalModel::new(Arc::new(service.clone()), &q) {
-        Ok(m) => m,
-        Err(e) => return fail(class_err(&e)),
-    };
+    Ok(service)
+}
+
+/// state model, initial state, the edges, the estimate -- on a model the service built for a query
+fn drive(model: &Arc<dyn TraversalModel>, c: &Case) -> Result<(Vec<f64>, Vec<RS>, RS), String> {
     let features = model.state_features();
     let sm_res = match &c.sm {
         None => StateModel::empty().extend(features),
@@ -325,14 +317,8 @@ fn run_impl(c: &Case, dir: &Path, id: usize) -> Outcome {
             StateModel::empty().extend(feats)
         }
     };
-    let sm = match sm_res {
-        Ok(s) => s,
-        Err(e) => return fail(class_state(&e)),
-    };
-    let st0 = match sm.initial_state() {
-        Ok(s) => s,
-        Err(e) => return fail(class_state(&e)),
-    };
+    let sm = sm_res.map_err(|e| class_state(&e))?;
+    let st0 = sm.initial_state().map_err(|e| class_state(&e))?;
     let v = Vertex::new(0, 0.0, 0.0);
     let mut edges = vec![];
     let mut st = st0.clone();
@@ -353,12 +339,44 @@ fn run_impl(c: &Case, dir: &Path, id: usize) -> Outcome {
         Ok(()) => Ok(state_vec(&st_e)),
         Err(err) => Err(class_err(&err)),
     };
-    let hav = haversine::coord_distance(&src.coordinate, &dst.coordinate, c.sv_du).unwrap();
-    let bc = match concrete.vehicle.best_case_energy((hav, c.sv_du)) {
+    Ok((state_vec(&st0), edges, est))
+}
+fn hav_in(c: &Case) -> Distance {
+    let src = Vertex::new(0, c.src.0, c.src.1);
+    let dst = Vertex::new(1, c.dst.0, c.dst.1);
+    haversine::coord_distance(&src.coordinate, &dst.coordinate, c.sv_du).unwrap()
+}
+
+/// one query on a service instance: TraversalModelService::build (what the search calls per query)
+fn run_query(service: &EnergyModelService, q: &Value, c: &Case) -> Outcome {
+    let model: Arc<dyn TraversalModel> = match service.build(q) {
+        Ok(m) => m,
+        Err(e) => return fail(class_err(&e)),
+    };
+    // the same constructor once more, only for best_case_energy of the updated vehicle (shares the records)
+    let concrete = match EnergyTraversalModel::new(Arc::new(service.clone()), q) {
+        Ok(m) => m,
+        Err(e) => return fail(class_err(&e)),
+    };
+    let (start, edges, est) = match drive(&model, c) {
+        Ok(x) => x,
+        Err(e) => return fail(e),
+    };
+    let bc = match concrete.vehicle.best_case_energy((hav_in(c), c.sv_du)) {
         Ok((e, u)) => Ok((e.as_f64(), u)),
         Err(err) => Err(class_err(&err)),
     };
-    Outcome { start: Ok(state_vec(&st0)), edges, est, bc }
+    Outcome { start: Ok(start), edges, est, bc }
+}
+
+fn run_impl(c: &Case, dir: &Path, id: usize) -> Outcome {
+    let mut library: HashMap<String, Arc<dyn VehicleType>> = HashMap::new();
+    library.insert("veh".to_string(), vehicle(&c.veh));
+    let service = match make_service(c, library, dir, id) {
+        Ok(s) => s,
+        Err(e) => return fail(e),
+    };
+    run_query(&service, &query_json(&c.query), c)
 }
 
 // ------------------------------------------------------------------ printing (same format as Model/VehicleRun.v)
@@ -853,13 +871,412 @@ fn boundary(st: &mut Stream, seed: u64, cache_on: bool, judge: bool) {
     }
 }
 
+// ------------------------------------------------------------------ stream `queries`: several queries on ONE service
+#[derive(Clone, Debug, Serialize, Deserialize)]
+struct QCase {
+    /// tables, units, edges, estimate end points (its `veh` / `query` are placeholders)
+    base: Case,
+    /// the vehicle library of the service: names veh0, veh1, ...
+    vehicles: Vec<Veh>,
+    /// (index into `vehicles`, starting_soc_percent) in the order they are served
+    queries: Vec<(usize, Query)>,
+}
+fn sub_case(qc: &QCase, i: usize) -> Case {
+    let mut c = qc.base.clone();
+    c.veh = qc.vehicles[qc.queries[i].0].clone();
+    c.query = qc.queries[i].1.clone();
+    c
+}
+fn hav_m_of(c: &Case) -> f64 {
+    let src = Vertex::new(0, c.src.0, c.src.1);
+    let dst = Vertex::new(1, c.dst.0, c.dst.1);
+    haversine::coord_distance_meters(&src.coordinate, &dst.coordinate).unwrap().as_f64()
+}
+fn coq_bc(o: &Outcome) -> String {
+    match &o.bc {
+        Ok((e, u)) => format!("(Ok ({}, {}))", coq_f64(*e), dbg(u)),
+        Err(cl) => format!("(Err {})", coq_string(cl)),
+    }
+}
+fn query_class(q: &Query) -> &'static str {
+    match q {
+        Query::Missing => "missing",
+        Query::Null | Query::Str(_) => "non-numeric",
+        Query::Int(i) if *i < 0 || *i > 100 => "out-of-range",
+        Query::Float(x) if !(0.0..=100.0).contains(x) => "out-of-range",
+        _ => "in-range",
+    }
+}
+fn add_qcase(st: &mut Stream, qc: QCase, family: &str) {
+    let id = st.next_id();
+    let dir = st.dir.clone();
+    let q2 = qc.clone();
+    let outs: Vec<Outcome> = match catch(move || {
+        let mut library: HashMap<String, Arc<dyn VehicleType>> = HashMap::new();
+        for (i, v) in q2.vehicles.iter().enumerate() {
+            library.insert(format!("veh{}", i), vehicle(v));
+        }
+        match make_service(&q2.base, library, &dir, id) {
+            // ONE service instance serves the whole sequence
+            Ok(service) => q2
+                .queries
+                .iter()
+                .map(|(vi, q)| run_query(&service, &query_json_for(q, &format!("veh{}", vi)), &q2.base))
+                .collect(),
+            Err(e) => q2.queries.iter().map(|_| fail(e.clone())).collect(),
+        }
+    }) {
+        Ok(o) => o,
+        Err(p) => qc.queries.iter().map(|_| fail(format!("PANIC {}", p))).collect(),
+    };
+    let hav = hav_m_of(&qc.base);
+    let subs: Vec<Case> = (0..qc.queries.len()).map(|i| sub_case(&qc, i)).collect();
+    let terms = vec![
+        format!("line_model_seq {} {}", id, coq_list(&subs, |c| coq_case(c, hav))),
+        format!(
+            "line_check_seq {} {}",
+            id,
+            coq_list(&subs.iter().zip(outs.iter()).collect::<Vec<_>>(), |(c, o)| format!(
+                "({}, {}, {}, {}, {})",
+                coq_case(c, hav),
+                coq_rs(&o.start),
+                coq_list(&o.edges, coq_rs),
+                coq_rs(&o.est),
+                coq_bc(o)
+            ))
+        ),
+    ];
+    st.count(&format!("family:{}", family));
+    st.count(&format!("queries:{}", qc.queries.len()));
+    // pairs of queries for one vehicle whose charges round to the same whole percent but differ
+    let mut same_round = false;
+    for (i, (vi, qi)) in qc.queries.iter().enumerate() {
+        for (vj, qj) in qc.queries[..i].iter() {
+            let val = |q: &Query| match q {
+                Query::Missing => Some(100.0),
+                Query::Int(x) => Some(*x as f64),
+                Query::Float(x) => Some(*x),
+                _ => None,
+            };
+            if vi == vj {
+                if let (Some(a), Some(b)) = (val(qi), val(qj)) {
+                    if a != b && a.round() == b.round() {
+                        same_round = true;
+                    }
+                }
+            }
+        }
+        st.count(&format!("query:{}", query_class(qi)));
+    }
+    if same_round {
+        st.count("sequence:two-charges-round-to-one-percent");
+        st.mark_nontrivial(&serde_json::to_string(&qc).unwrap());
+    }
+    for o in &outs {
+        st.count(if o.start.is_ok() { "start:ok" } else { "start:rejected" });
+    }
+    let readable = json!({"queries": qc.queries.iter().map(|(vi, q)| query_json_for(q, &format!("veh{}", vi))).collect::<Vec<_>>(),
+                          "vehicles": qc.vehicles.iter().map(|v| match v { Veh::Ice(_) => "ice", Veh::Bev(..) => "bev", Veh::Phev(..) => "phev" }).collect::<Vec<_>>(),
+                          "n_edges": qc.base.edge_ids.len()});
+    let desc = json!({"id": id, "family": family, "qcase": serde_json::to_value(&qc).unwrap(), "readable": readable});
+    let line = outs.iter().map(payload).collect::<Vec<_>>().join(" || ");
+    st.case(terms, vec![format!("I {} {}", id, line)], desc);
+}
+/// charges for one vehicle that the seeded memoisation would confuse, in serving order
+fn soc_pair(r: &mut Rng, allow_missing: bool) -> Vec<Query> {
+    let mut v = match r.below(8) {
+        0 => vec![Query::Float(80.0), Query::Float(80.4)],
+        1 => vec![Query::Int(35), Query::Float(34.6)],
+        2 => vec![if allow_missing { Query::Missing } else { Query::Int(100) }, Query::Float(100.3)],
+        3 => vec![Query::Int(0), Query::Float(-0.2)],
+        4 => vec![Query::Float(100.0), Query::Float(100.4), Query::Float(99.6)],
+        5 => vec![Query::Float(0.3), Query::Float(-0.4), Query::Float(0.0)],
+        _ => {
+            let k = r.range(1, 99) as f64;
+            let a = k + 0.45 * (2.0 * r.unit_f64() - 1.0);
+            let b = k + 0.45 * (2.0 * r.unit_f64() - 1.0);
+            vec![Query::Float(a), Query::Float(b), Query::Float(k)]
+        }
+    };
+    if r.chance(1, 3) {
+        v.reverse();
+    }
+    v
+}
+fn gen_qcase(r: &mut Rng) -> QCase {
+    let n_edges = 1 + r.below(4) as usize;
+    let mut base = gen_case(r, 1, false, Shape { n_edges, downhill: 0.3, cap_scale: 1.0 }, Query::Missing);
+    base.sm = None;
+    // library: a battery vehicle that receives the confusable charges, and one or two others
+    let mut vehicles = vec![];
+    let target_kind = 1 + r.below(2);
+    for kind in [target_kind, r.below(3), r.below(3)].iter().take(2 + r.below(2) as usize) {
+        let c = gen_case(r, *kind, false, Shape { n_edges: 1, downhill: 0.0, cap_scale: 1.0 }, Query::Missing);
+        vehicles.push(c.veh);
+    }
+    let mut queries = vec![];
+    for q in soc_pair(r, target_kind == 1) {
+        if r.chance(1, 3) {
+            // interleave a query for another vehicle of the library
+            let vi = 1 + r.below(vehicles.len() as u64 - 1) as usize;
+            queries.push((vi, gen_query(r)));
+        }
+        queries.push((0usize, q));
+    }
+    if r.chance(1, 4) {
+        queries.push((0, gen_query(r)));
+    }
+    queries.truncate(6);
+    QCase { base, vehicles, queries }
+}
+
+// ------------------------------------------------------------------ stream `builders`: vehicles from the configuration
+#[derive(Clone, Debug, Serialize, Deserialize)]
+struct BVeh {
+    /// "ice" | "bev" | "phev"
+    kind: String,
+    #[serde(with = "bits")]
+    cap: f64,
+    bu: EnergyUnit,
+    #[serde(with = "bits")]
+    adj: f64,
+}
+#[derive(Clone, Debug, Serialize, Deserialize)]
+struct BCase {
+    base: Case,
+    vehicles: Vec<BVeh>,
+    queries: Vec<(usize, Query)>,
+}
+fn repo_root() -> String {
+    std::env::var("VERIF_REPO").unwrap_or_else(|_| "/repo".to_string())
+}
+fn model_file(name: &str) -> String {
+    format!("{}/rust/routee-compass-powertrain/src/routee/test/{}", repo_root(), name)
+}
+fn record_config(name: &str, file: &str, eru: &str, ideal: f64, adj: f64) -> Value {
+    json!({"name": name, "model_input_file": model_file(file), "model_type": "smartcore",
+           "speed_unit": "miles_per_hour", "grade_unit": "decimal", "energy_rate_unit": eru,
+           "ideal_energy_rate": ideal, "real_world_energy_adjustment": adj})
+}
+fn vehicle_config(v: &BVeh, name: &str) -> Value {
+    match v.kind.as_str() {
+        "ice" => {
+            let mut m = record_config(name, "Toyota_Camry.bin", "gallons_gasoline_per_mile", 0.02, v.adj);
+            m["type"] = json!("ice");
+            m
+        }
+        "bev" => {
+            let mut m = record_config(name, "2017_CHEVROLET_Bolt.bin", "kilowatt_hours_per_mile", 0.2, v.adj);
+            m["type"] = json!("bev");
+            m["battery_capacity"] = json!(v.cap);
+            m["battery_capacity_unit"] = serde_json::to_value(v.bu).unwrap();
+            m
+        }
+        _ => json!({
+            "type": "phev", "name": name,
+            "battery_capacity": v.cap, "battery_capacity_unit": serde_json::to_value(v.bu).unwrap(),
+            "charge_depleting": record_config("cd", "2016_CHEVROLET_Volt_Charge_Depleting.bin", "kilowatt_hours_per_mile", 0.2, v.adj),
+            "charge_sustaining": record_config("cs", "2016_CHEVROLET_Volt_Charge_Sustaining.bin", "gallons_gasoline_per_mile", 0.02, v.adj),
+        }),
+    }
+}
+fn run_built(bc: &BCase, dir: &Path, id: usize) -> Vec<Outcome> {
+    use routee_compass::app::compass::config::traversal_model::energy_model_builder::EnergyModelBuilder;
+    use routee_compass::app::compass::config::traversal_model::energy_model_vehicle_builders::VehicleBuilder;
+    use routee_compass::app::compass::config::traversal_model::speed_lookup_builder::SpeedLookupBuilder;
+    use routee_compass_core::model::traversal::traversal_model_builder::TraversalModelBuilder;
+    let c = &bc.base;
+    let sp = dir.join(format!("speeds_b{}.txt", id));
+    let gp = dir.join(format!("grades_b{}.txt", id));
+    write_table(&sp, &c.speeds);
+    let mut conf = json!({
+        "type": "energy_model",
+        "time_model": {"type": "speed_table", "speed_table_input_file": sp.to_str().unwrap(),
+                       "speed_unit": serde_json::to_value(c.en_su).unwrap(),
+                       "distance_unit": serde_json::to_value(c.en_du).unwrap(),
+                       "time_unit": serde_json::to_value(c.en_tu).unwrap()},
+        "grade_table_grade_unit": serde_json::to_value(c.sv_gu).unwrap(),
+        "distance_unit": serde_json::to_value(c.sv_du).unwrap(),
+        "vehicles": bc.vehicles.iter().enumerate().map(|(i, v)| vehicle_config(v, &format!("veh{}", i))).collect::<Vec<_>>(),
+    });
+    if let Some(g) = &c.grades {
+        write_table(&gp, g);
+        conf["grade_table_input_file"] = json!(gp.to_str().unwrap());
+    }
+    let mut time_models: HashMap<String, std::rc::Rc<dyn TraversalModelBuilder>> = HashMap::new();
+    time_models.insert("speed_table".to_string(), std::rc::Rc::new(SpeedLookupBuilder {}));
+    let built = EnergyModelBuilder::new(time_models).build(&conf);
+    let _ = std::fs::remove_file(&sp);
+    let _ = std::fs::remove_file(&gp);
+    let service = match built {
+        Ok(s) => s,
+        Err(e) => return bc.queries.iter().map(|_| fail(class_err(&e))).collect(),
+    };
+    // a second copy of every vehicle from the same builder, only for best_case_energy
+    let twins: Vec<Option<Arc<dyn VehicleType>>> = bc
+        .vehicles
+        .iter()
+        .enumerate()
+        .map(|(i, v)| {
+            VehicleBuilder::from_string(v.kind.clone()).ok().and_then(|b| b.build(&vehicle_config(v, &format!("veh{}", i))).ok())
+        })
+        .collect();
+    bc.queries
+        .iter()
+        .map(|(vi, q)| {
+            let qj = query_json_for(q, &format!("veh{}", vi));
+            let model = match service.build(&qj) {
+                Ok(m) => m,
+                Err(e) => return fail(class_err(&e)),
+            };
+            let (start, edges, est) = match drive(&model, c) {
+                Ok(x) => x,
+                Err(e) => return fail(e),
+            };
+            let bce = match twins[*vi].as_ref().map(|t| t.update_from_query(&qj)) {
+                Some(Ok(v)) => match v.best_case_energy((hav_in(c), c.sv_du)) {
+                    Ok((e, u)) => Ok((e.as_f64(), u)),
+                    Err(err) => Err(class_err(&err)),
+                },
+                Some(Err(e)) => Err(class_err(&e)),
+                None => Err("BuildError".to_string()),
+            };
+            Outcome { start: Ok(start), edges, est, bc: bce }
+        })
+        .collect()
+}
+fn add_bcase(st: &mut Stream, bc: BCase, family: &str, judge_units: bool) {
+    let id = st.next_id();
+    let dir = st.dir.clone();
+    let b2 = bc.clone();
+    let outs = match catch(move || run_built(&b2, &dir, id)) {
+        Ok(o) => o,
+        Err(p) => bc.queries.iter().map(|_| fail(format!("PANIC {}", p))).collect(),
+    };
+    let kind_term = |v: &BVeh| match v.kind.as_str() {
+        "ice" => "BIce".to_string(),
+        "bev" => format!("(BBev {} {})", coq_f64(v.cap), dbg(&v.bu)),
+        _ => format!("(BPhev {} {})", coq_f64(v.cap), dbg(&v.bu)),
+    };
+    let qval = |vi: usize, q: &Query| {
+        let qj = query_json_for(q, &format!("veh{}", vi));
+        match qj.get("starting_soc_percent") {
+            None => "QMissing".to_string(),
+            Some(v) => match v.as_f64() {
+                Some(x) => format!("(QNumber {})", coq_f64(x)),
+                None => "QNonNumeric".to_string(),
+            },
+        }
+    };
+    let obs = coq_list(&bc.queries.iter().zip(outs.iter()).collect::<Vec<_>>(), |((vi, q), o)| {
+        format!(
+            "({}, {}, {}, {}, {}, {})",
+            kind_term(&bc.vehicles[*vi]),
+            qval(*vi, q),
+            coq_rs(&o.start),
+            coq_list(&o.edges, coq_rs),
+            coq_rs(&o.est),
+            coq_bc(o)
+        )
+    });
+    let mismatch = bc.queries.iter().any(|(vi, _)| {
+        let v = &bc.vehicles[*vi];
+        v.kind != "ice" && dbg(&v.bu) != "KilowattHours"
+    });
+    let _ = judge_units; // every unit combination is judged since fix 0840f02
+    let terms = vec![format!("line_built {} {}", id, obs)];
+    if mismatch {
+        st.count("battery-unit!=model-energy-unit");
+    }
+    st.count(&format!("family:{}", family));
+    st.count(&format!("queries:{}", bc.queries.len()));
+    for (vi, q) in &bc.queries {
+        let v = &bc.vehicles[*vi];
+        st.count(&format!("vehicle:{}", v.kind));
+        if v.kind != "ice" {
+            st.count(&format!("battery-unit:{}", eu_snake(&v.bu)));
+        }
+        st.count(&format!("query:{}", query_class(q)));
+    }
+    let mut moved = false;
+    for ((vi, _), o) in bc.queries.iter().zip(outs.iter()) {
+        st.count(if o.start.is_ok() { "start:ok" } else { "start:rejected" });
+        if bc.vehicles[*vi].kind != "ice" {
+            if let (Ok(s0), Some(Ok(last))) = (&o.start, o.edges.last()) {
+                if (last[1] - s0[1]).abs() > 0.5 {
+                    moved = true;
+                }
+                if last[1] == 0.0 || last[1] == 100.0 {
+                    st.count("soc:clamped");
+                }
+            }
+        }
+    }
+    if moved {
+        st.count("soc:moved-by-more-than-half-a-percent");
+        st.mark_nontrivial(&serde_json::to_string(&bc).unwrap());
+    }
+    let readable = json!({"queries": bc.queries.iter().map(|(vi, q)| query_json_for(q, &format!("veh{}", vi))).collect::<Vec<_>>(),
+                          "vehicles": bc.vehicles.iter().enumerate().map(|(i, v)| vehicle_config(v, &format!("veh{}", i))).collect::<Vec<_>>(),
+                          "speeds": bc.base.speeds, "grades": bc.base.grades, "edge_len_m": bc.base.edge_len});
+    let desc = json!({"id": id, "family": family, "bcase": serde_json::to_value(&bc).unwrap(), "readable": readable,
+                      "unit_mismatch": mismatch});
+    let line = outs.iter().map(payload).collect::<Vec<_>>().join(" || ");
+    st.case(terms, vec![format!("I {} {}", id, line)], desc);
+}
+fn gen_bcase(r: &mut Rng, force: Option<(&str, EnergyUnit)>) -> BCase {
+    let n_edges = 1 + r.below(6) as usize;
+    let mut base = gen_case(r, 0, false, Shape { n_edges, downhill: 0.3, cap_scale: 1.0 }, Query::Missing);
+    base.sm = None;
+    base.sv_su = base.en_su; // the builder reads the service's speed unit from the time model section
+    // realistic road speeds (the forests were trained on them) and longer edges so that the charge moves
+    base.speeds = base.speeds.iter().map(|_| speed_in(base.en_su, 15.0 + 60.0 * r.unit_f64())).collect();
+    if let Some(g) = &mut base.grades {
+        for x in g.iter_mut() {
+            *x = grade_in(base.sv_gu, -0.06 + 0.12 * r.unit_f64());
+        }
+    }
+    base.edge_len = base.edge_len.iter().map(|_| 500.0 + 9000.0 * r.unit_f64()).collect();
+    let mut vehicles = vec![];
+    let n_veh = 1 + r.below(3) as usize;
+    for i in 0..n_veh {
+        let (kind, bu) = match (&force, i) {
+            (Some((k, u)), 0) => (k.to_string(), *u),
+            _ => (r.pick(&["ice", "bev", "bev", "phev", "phev"]).to_string(), *r.pick(&EUS)),
+        };
+        // capacity: a pack of 0.5 .. 60 kWh expressed in the configured unit
+        let kwh = *r.pick(&[0.5, 2.0, 12.0, 60.0]) * (0.8 + 0.4 * r.unit_f64());
+        let cap = EnergyUnit::KilowattHours.convert(&Energy::new(kwh), &bu).as_f64();
+        let adj = *r.pick(&[1.0, 1.1252, 1.3958]);
+        vehicles.push(BVeh { kind, cap, bu, adj });
+    }
+    let mut queries = vec![];
+    let pair = soc_pair(r, vehicles[0].kind == "bev");
+    for q in pair.into_iter().take(1 + r.below(3) as usize) {
+        if vehicles.len() > 1 && r.chance(1, 3) {
+            queries.push((1 + r.below(vehicles.len() as u64 - 1) as usize, gen_query(r)));
+        }
+        queries.push((0usize, q));
+    }
+    if r.chance(1, 2) {
+        queries.push((r.below(vehicles.len() as u64) as usize, Query::Float(20.0 + 70.0 * r.unit_f64())));
+    }
+    BCase { base, vehicles, queries }
+}
+
 fn main() {
     silence_panics();
     let a = parse_args();
     let header = "From Coq Require Import ZArith QArith List String Floats.\nFrom RC Require Import Base.Show Base.Res Model.Units Model.Vehicle Model.VehicleRun.\nImport ListNotations Units Vehicle VehicleRun.\nOpen Scope Z_scope.";
     let cache_on = a.stream == "cache";
     let judge = a.extra.iter().any(|x| x == "--judge-collisions");
-    let name = if cache_on { "cache" } else { "route" };
+    let judge_units = a.extra.iter().any(|x| x == "--judge-battery-unit");
+    let name = match a.stream.as_str() {
+        "cache" => "cache",
+        "queries" => "queries",
+        "builders" => "builders",
+        _ => "route",
+    };
     let mut st = Stream::new(&a.out, name, header, a.shards);
     if let Some(p) = &a.replay {
         st.full = true;
@@ -870,15 +1287,53 @@ fn main() {
             None => vec![v["case"].clone()],
         };
         for d in descs {
-            let c: Case = serde_json::from_value(d["case"].clone()).unwrap();
             let fam = d["family"].as_str().unwrap_or("replay").to_string();
-            add_case(&mut st, c, &fam, judge);
+            if !d["qcase"].is_null() {
+                add_qcase(&mut st, serde_json::from_value(d["qcase"].clone()).unwrap(), &fam);
+            } else if !d["bcase"].is_null() {
+                add_bcase(&mut st, serde_json::from_value(d["bcase"].clone()).unwrap(), &fam, judge_units);
+            } else {
+                let c: Case = serde_json::from_value(d["case"].clone()).unwrap();
+                add_case(&mut st, c, &fam, judge);
+            }
+        }
+        st.finish();
+        return;
+    }
+    let mut rng = Rng::new(a.seed);
+    if name == "queries" {
+        while st.next_id() < a.n {
+            let mut r = rng.fork();
+            let qc = gen_qcase(&mut r);
+            add_qcase(&mut st, qc, "random");
+        }
+        st.finish();
+        return;
+    }
+    if name == "builders" {
+        // every vehicle kind with the battery capacity in every energy unit first
+        let mut brng = Rng::new(a.seed ^ 0xB08);
+        for kind in ["bev", "phev"] {
+            for bu in EUS.iter() {
+                for _ in 0..2 {
+                    let mut r = brng.fork();
+                    let bc = gen_bcase(&mut r, Some((kind, *bu)));
+                    add_bcase(&mut st, bc, "every-battery-unit", judge_units);
+                }
+            }
+        }
+        let mut r = brng.fork();
+        let bc = gen_bcase(&mut r, Some(("ice", EnergyUnit::KilowattHours)));
+        add_bcase(&mut st, bc, "every-battery-unit", judge_units);
+        while st.next_id() < a.n {
+            let mut r = rng.fork();
+            let bc = gen_bcase(&mut r, None);
+            add_bcase(&mut st, bc, "random", judge_units);
         }
         st.finish();
         return;
     }
     boundary(&mut st, a.seed, cache_on, judge);
-    let mut rng = Rng::new(a.seed);
     while st.next_id() < a.n {
         let mut r = rng.fork();
         let kind = *r.pick(&[0u64, 1, 1, 1, 2, 2, 2]);
